@@ -49,8 +49,28 @@ created by main.main in goroutine 1
 
 `
 
+// eofWithData is an io.Reader that reports io.EOF together with its last bytes.
+type eofWithData struct{ b []byte }
+
+func (r *eofWithData) Read(p []byte) (int, error) {
+	n := copy(p, r.b)
+	r.b = r.b[n:]
+	if len(r.b) == 0 {
+		return n, io.EOF
+	}
+	return n, nil
+}
+
+var scans int64
+
 func scan(opts *stack.Opts) *stack.Snapshot {
-	s, _, err := stack.ScanSnapshot(strings.NewReader(dump), io.Discard, opts)
+	// every other scan: trailing text after the dump (the scan stops before the end of its input) from a
+	// reader that delivers EOF with the data
+	var in io.Reader = strings.NewReader(dump)
+	if atomic.AddInt64(&scans, 1)%2 == 0 {
+		in = &eofWithData{b: []byte(dump + "exit status 2\n")}
+	}
+	s, _, err := stack.ScanSnapshot(in, io.Discard, opts)
 	if s == nil || (err != nil && err != io.EOF) {
 		panic(fmt.Sprint("scan failed: ", err))
 	}
